@@ -86,6 +86,9 @@ def run(cx):
                 m = re.search(r" in Manifold::Impl::(\w+) ", d["why"])
                 if m and m.group(1) not in targets:
                     targets.append(m.group(1))
+                m = re.search(r" in Manifold::(\w+) \[", d["why"])          # public method that writes a copied Impl itself
+                if m and m.group(1) != "Impl" and m.group(1) not in targets:
+                    targets.append(m.group(1))
                 m = re.search(r"copy-then-call Manifold::Impl::(\w+)", d["entry"])
                 if m and m.group(1) not in targets:
                     targets.append(m.group(1))
@@ -106,20 +109,23 @@ def dynamic(cx, meta, targets):
     exe = vp.build_harness("c05_hist", "seq", link_lib=True)
     rng = random.Random(cx.seed * 104729 + 5)
     n_hist = cx.pick(220, 6000)
+    still_open = c05_hist.open_defects(vp.REPO)       # defects of other properties whose triggers corrupt the heap
+    avoid = bool(still_open)
+    cx.cov["generator_avoids_open_defects"] = sorted(still_open)
     hists = []
     for hid in range(1, n_hist + 1):
         mode = "lazy" if hid % 3 == 0 else "eager"
         nsteps = rng.choice([12, 20, 30, 45, 60])
         focus = None
         if hid % 5 == 0:
-            focus = rng.choice(["DedupePropVerts", "SortGeometry", "Subdivide", "SetNormals", "SimplifyTopology2", "Refine"])
-        hists.append(c05_hist.line(hid, mode, c05_hist.gen_history(rng, hid, mode, nsteps, focus)))
+            focus = rng.choice(["DedupePropVerts", "SortGeometry", "Subdivide", "SetNormals", "SimplifyTopology2", "Refine", "SetProperties"])
+        hists.append(c05_hist.line(hid, mode, c05_hist.gen_history(rng, hid, mode, nsteps, focus, avoid_known=avoid)))
     # search aimed at broken obligations: 4x budget on the methods that lost their dominator
     if targets:
         extra = cx.pick(400, 4000)
         for k in range(extra):
             hid = n_hist + 1 + k
-            hists.append(c05_hist.line(hid, "eager", c05_hist.gen_history(rng, hid, "eager", rng.choice([8, 14, 24]), targets[k % len(targets)])))
+            hists.append(c05_hist.line(hid, "eager", c05_hist.gen_history(rng, hid, "eager", rng.choice([8, 14, 24]), targets[k % len(targets)], avoid_known=avoid)))
     run_histories(cx, c05_hist, exe, hists)
     impl_level(cx, c05_hist, exe, meta, targets)
 
